@@ -13,6 +13,12 @@ exactly what the model holds, bindings / free list / tie groups untouched, tied 
 free name keep their value, and the i-th free parameter holds the ANSWER `x[i]` mapped through its bound transform —
 whatever was evaluated last.
 
+The theorems are stated for `Fit.fitCore` — the body of `fit_scipy` for an ARBITRARY dict `bounds` handed to `set_bound`
+and an ARBITRARY list `bd` handed to `standard_complex(bounded=…)`; `Fit.fit` is `fitCore` at the dict / list the tree
+computes from `bounds_dict` (`Fit.regBounds`, `Fit.stdBoundedNames`: the argument itself and `[]` on the tree as it is), so
+every statement here holds for `fit` in every variant.  The repaired variants of `standard_complex` / `set_bound`
+(`Cfg.stdFree`, `Cfg.boundHead`, `Fix.stdBounded`) have their own theorems in `Props/C08c.lean`.
+
 Not proved here (depends on the external minimiser, validated by the harness): `min_nll = NLL(params)`,
 `min_nll ≤ NLL(start)`, bounds enforced by L-BFGS-B / Minuit limits.
 -/
@@ -28,29 +34,29 @@ variable {V : Type}
 every method of the branch after `fix_fit_hess_inv_optional.diff`): for any evaluations and any answer, the fit returns
 a result that matches the model state, the free parameters hold `x2y(answer)`, and `vm.bnd_dic` is empty again. -/
 theorem result_matches_state_quasi (A : Arith V) (cfg : Cfg) (fx : Fix) (stdc : Bool) (s : State V)
-    (bounds : Dict (Option V × Option V)) (o : Oracle V) (hi : Inv s) (hm : s.mask = [])
+    (bounds : Dict (Option V × Option V)) (bd : List Name) (o : Oracle V) (hi : Inv s) (hm : s.mask = [])
     (hx : o.x.length = s.trainable.length) (hab : o.abort = false) (hh : o.hasHessInv = true ∨ fx.hessOpt = true) :
-    ∃ r, (fit A cfg fx .quasi stdc s bounds o).2 = .ok r ∧
-      Matches A s (fit A cfg fx .quasi stdc s bounds o).1 r stdc (yOf A (setBound s bounds).bnd) o.x ∧
-      (fit A cfg fx .quasi stdc s bounds o).1.bnd = [] := by
+    ∃ r, (fitCore A cfg fx .quasi stdc s bounds bd o).2 = .ok r ∧
+      Matches A s (fitCore A cfg fx .quasi stdc s bounds bd o).1 r stdc (yOf A (setBound s bounds).bnd) o.x ∧
+      (fitCore A cfg fx .quasi stdc s bounds bd o).1.bnd = [] := by
   obtain ⟨h1, h2, h3, h4, h5, h6⟩ := transWrite_facts A cfg s bounds o.evals o.x hi hm hx
   have hcond : (!o.hasHessInv && !fx.hessOpt) = false := by rcases hh with h | h <;> simp [h]
-  simp only [fit, afterEvals, hab, hcond, evalOps, Bool.false_eq_true, if_false]
+  simp only [fitCore, afterEvals, hab, hcond, evalOps, Bool.false_eq_true, if_false]
   generalize hs2 : (step A cfg (run A cfg (setBound s bounds) (List.map Eval.op o.evals)) (Op.setTransVar o.x)).1 = s2 at *
   have ht : (step A cfg s2 .removeBound).1.skel = s2.skel ∧ (step A cfg s2 .removeBound).1.heap = s2.heap ∧
       (step A cfg s2 .removeBound).1.mask = s2.mask ∧ (step A cfg s2 .removeBound).1.cplx = s2.cplx := ⟨rfl, rfl, rfl, rfl⟩
-  obtain ⟨r, hr, hmch⟩ := finish_matches A cfg stdc s s2 _ o (yOf A (setBound s bounds).bnd) h1 h2 h3 h5 h6 ht
+  obtain ⟨r, hr, hmch⟩ := finish_matches A cfg stdc s s2 _ o (yOf A (setBound s bounds).bnd) h1 h2 h3 h5 h6 ht bd
   refine ⟨r, hr, hmch, ?_⟩
-  exact (finish_facts A cfg stdc _ o).2.2.1.1
+  exact (finish_facts A cfg stdc _ o bd).2.2.1.1
 
 /-- **Unchanged tree, CG / Nelder-Mead / `test`** (no `hess_inv` on the result): for every input the call raises
 `AttributeError` after `set_trans_var`, returns no result, and leaves the bounds registered. -/
 theorem quasi_without_hess_inv_raises (A : Arith V) (cfg : Cfg) (fx : Fix) (stdc : Bool) (s : State V)
-    (bounds : Dict (Option V × Option V)) (o : Oracle V) (hab : o.abort = false) (hh : o.hasHessInv = false)
+    (bounds : Dict (Option V × Option V)) (bd : List Name) (o : Oracle V) (hab : o.abort = false) (hh : o.hasHessInv = false)
     (hf : fx.hessOpt = false) :
-    (fit A cfg fx .quasi stdc s bounds o).2.exc = some "AttributeError" ∧
-    (fit A cfg fx .quasi stdc s bounds o).1.bnd = (setBound s bounds).bnd := by
-  simp only [fit, afterEvals, hab, hh, hf, evalOps, Bool.false_eq_true, if_false, Bool.not_false, Bool.and_self, if_true,
+    (fitCore A cfg fx .quasi stdc s bounds bd o).2.exc = some "AttributeError" ∧
+    (fitCore A cfg fx .quasi stdc s bounds bd o).1.bnd = (setBound s bounds).bnd := by
+  simp only [fitCore, afterEvals, hab, hh, hf, evalOps, Bool.false_eq_true, if_false, Bool.not_false, Bool.and_self, if_true,
     Outcome.exc, true_and]
   have h1 := (step_setTransVar_BM A cfg (run A cfg (setBound s bounds) (List.map Eval.op o.evals)) o.x).1
   have h2 := (run_evals A cfg (setBound s bounds) o.evals).2.1.1
@@ -60,24 +66,24 @@ theorem quasi_without_hess_inv_raises (A : Arith V) (cfg : Cfg) (fx : Fix) (stdc
 holds; bindings are untouched; the bounds stay registered on the unchanged tree and are removed after
 `fix_fit_except_remove_bound.diff`. -/
 theorem quasi_abort (A : Arith V) (cfg : Cfg) (fx : Fix) (stdc : Bool) (s : State V)
-    (bounds : Dict (Option V × Option V)) (o : Oracle V) (hm : s.mask = []) (hab : o.abort = true) :
-    let s' := (fit A cfg fx .quasi stdc s bounds o).1
-    ∃ r, (fit A cfg fx .quasi stdc s bounds o).2 = .ok r ∧ r.success = false ∧ r.params = getAllDic A s' false ∧
+    (bounds : Dict (Option V × Option V)) (bd : List Name) (o : Oracle V) (hm : s.mask = []) (hab : o.abort = true) :
+    let s' := (fitCore A cfg fx .quasi stdc s bounds bd o).1
+    ∃ r, (fitCore A cfg fx .quasi stdc s bounds bd o).2 = .ok r ∧ r.success = false ∧ r.params = getAllDic A s' false ∧
       (∀ kv ∈ r.params, readN s' kv.1 = some kv.2) ∧ s'.vars = s.vars ∧ s'.trainable = s.trainable ∧
       (∀ n c, cellOf s n = some c → FixedCell s c → readN s' n = readN s n) ∧
       s'.bnd = (if fx.exceptRm then [] else (setBound s bounds).bnd) := by
   intro s'
   obtain ⟨h1, h2, h3, h4, h5⟩ := afterEvals_bounded A cfg s bounds o.evals
   have hs' : s' = (exceptResult A fx (run A cfg (setBound s bounds) (List.map Eval.op o.evals)) o).1 := by
-    show (fit A cfg fx .quasi stdc s bounds o).1 = _
-    simp only [fit, afterEvals, hab, evalOps, if_true]
+    show (fitCore A cfg fx .quasi stdc s bounds bd o).1 = _
+    simp only [fitCore, afterEvals, hab, evalOps, if_true]
   generalize hs1 : run A cfg (setBound s bounds) (List.map Eval.op o.evals) = s1 at *
   have hsk : s'.skel = s1.skel ∧ s'.heap = s1.heap ∧ s'.mask = s1.mask := by
     rw [hs']; unfold exceptResult; cases fx.exceptRm <;> exact ⟨rfl, rfl, rfl⟩
   have hcell : ∀ n, cellOf s' n = cellOf s n := fun n => cellOf_of_skel (hsk.1.trans h1) n
   obtain ⟨e1, e2, _, _⟩ := (skel_eq_iff _ _).1 (hsk.1.trans h1)
   refine ⟨⟨getAllDic A s' false, o.fval, s1.trainable.length, false⟩, ?_, rfl, rfl, ?_, e1, e2, ?_, ?_⟩
-  · simp only [fit, afterEvals, hab, evalOps, if_true, hs1]
+  · simp only [fitCore, afterEvals, hab, evalOps, if_true, hs1]
     rw [hs']; rfl
   · exact getAllDic_reads A s' (by rw [hsk.2.2, h3, hm]) false
   · intro n c hn hf
@@ -94,25 +100,25 @@ theorem quasi_abort (A : Arith V) (cfg : Cfg) (fx : Fix) (stdc : Bool) (s : Stat
 /-- **Unchanged tree: `method="L-BFGS-B"` never returns a result** — after the minimisation `fcn.vm.set_var(xn)` raises
 `AttributeError` for every input; the model is left at the last evaluated point. -/
 theorem lbfgsb_unfixed_raises (A : Arith V) (cfg : Cfg) (fx : Fix) (stdc : Bool) (s : State V)
-    (bounds : Dict (Option V × Option V)) (o : Oracle V) (hab : o.abort = false) (hf : fx.lbfgsb = false) :
-    (fit A cfg fx .lbfgsb stdc s bounds o).2.exc = some "AttributeError" ∧
-    (fit A cfg fx .lbfgsb stdc s bounds o).1 = run A cfg s (evalOps o) := by
-  simp only [fit, afterEvals, hab, hf, Bool.false_eq_true, if_false, Bool.not_false, if_true, Outcome.exc, and_self]
+    (bounds : Dict (Option V × Option V)) (bd : List Name) (o : Oracle V) (hab : o.abort = false) (hf : fx.lbfgsb = false) :
+    (fitCore A cfg fx .lbfgsb stdc s bounds bd o).2.exc = some "AttributeError" ∧
+    (fitCore A cfg fx .lbfgsb stdc s bounds bd o).1 = run A cfg s (evalOps o) := by
+  simp only [fitCore, afterEvals, hab, hf, Bool.false_eq_true, if_false, Bool.not_false, if_true, Outcome.exc, and_self]
 
 /-- **`result_matches_state`, L-BFGS-B after `fix_fit_lbfgsb_set_all.diff`**: the model holds the answer itself (the
 bounds are enforced by the external minimiser, not by a transform), the result matches, `bnd_dic` is as before. -/
 theorem result_matches_state_lbfgsb (A : Arith V) (cfg : Cfg) (fx : Fix) (stdc : Bool) (s : State V)
-    (bounds : Dict (Option V × Option V)) (o : Oracle V) (hi : Inv s) (hm : s.mask = [])
+    (bounds : Dict (Option V × Option V)) (bd : List Name) (o : Oracle V) (hi : Inv s) (hm : s.mask = [])
     (hab : o.abort = false) (hf : fx.lbfgsb = true) :
-    ∃ r, (fit A cfg fx .lbfgsb stdc s bounds o).2 = .ok r ∧
-      Matches A s (fit A cfg fx .lbfgsb stdc s bounds o).1 r stdc (fun _ x => x) o.x ∧
-      (fit A cfg fx .lbfgsb stdc s bounds o).1.bnd = s.bnd := by
+    ∃ r, (fitCore A cfg fx .lbfgsb stdc s bounds bd o).2 = .ok r ∧
+      Matches A s (fitCore A cfg fx .lbfgsb stdc s bounds bd o).1 r stdc (fun _ x => x) o.x ∧
+      (fitCore A cfg fx .lbfgsb stdc s bounds bd o).1.bnd = s.bnd := by
   obtain ⟨h1, h2, h3, h4, h5, h6⟩ := rawWrite_facts A cfg s o.evals o.x hi hm
-  simp only [fit, afterEvals, hab, hf, evalOps, Bool.false_eq_true, if_false, Bool.not_true]
+  simp only [fitCore, afterEvals, hab, hf, evalOps, Bool.false_eq_true, if_false, Bool.not_true]
   generalize hs2 : (step A cfg (run A cfg s (List.map Eval.op o.evals)) (Op.setAllList o.x false)).1 = s2 at *
-  obtain ⟨r, hr, hmch⟩ := finish_matches A cfg stdc s s2 s2 o (fun _ x => x) h1 h2 h3 h5 h6 ⟨rfl, rfl, rfl, rfl⟩
+  obtain ⟨r, hr, hmch⟩ := finish_matches A cfg stdc s s2 s2 o (fun _ x => x) h1 h2 h3 h5 h6 ⟨rfl, rfl, rfl, rfl⟩ bd
   refine ⟨r, hr, hmch, ?_⟩
-  rw [(finish_facts A cfg stdc s2 o).2.2.1.1, h4]
+  rw [(finish_facts A cfg stdc s2 o bd).2.2.1.1, h4]
 
 /-! ## Newton-CG / trust-* (`fit_newton_cg`) -/
 
@@ -121,22 +127,22 @@ parameters hold `x2y(answer)` — all clauses without exception, because `fit_ne
 `standard_complex`; `vm.bnd_dic` is empty again only after `fix_fit_newton_remove_bound.diff`, on the unchanged tree
 it still holds the bounds. -/
 theorem result_matches_state_newton (A : Arith V) (cfg : Cfg) (fx : Fix) (stdc : Bool) (s : State V)
-    (bounds : Dict (Option V × Option V)) (o : Oracle V) (hi : Inv s) (hm : s.mask = [])
+    (bounds : Dict (Option V × Option V)) (bd : List Name) (o : Oracle V) (hi : Inv s) (hm : s.mask = [])
     (hx : o.x.length = s.trainable.length) :
-    ∃ r, (fit A cfg fx .newton stdc s bounds o).2 = .ok r ∧
-      Matches A s (fit A cfg fx .newton stdc s bounds o).1 r false (yOf A (setBound s bounds).bnd) o.x ∧
-      (fit A cfg fx .newton stdc s bounds o).1.bnd = (if fx.newtonRm then [] else (setBound s bounds).bnd) := by
+    ∃ r, (fitCore A cfg fx .newton stdc s bounds bd o).2 = .ok r ∧
+      Matches A s (fitCore A cfg fx .newton stdc s bounds bd o).1 r false (yOf A (setBound s bounds).bnd) o.x ∧
+      (fitCore A cfg fx .newton stdc s bounds bd o).1.bnd = (if fx.newtonRm then [] else (setBound s bounds).bnd) := by
   obtain ⟨h1, h2, h3, h4, h5, h6⟩ := transWrite_facts A cfg s bounds o.evals o.x hi hm hx
-  simp only [fit, afterEvals, evalOps]
+  simp only [fitCore, afterEvals, evalOps]
   generalize hs2 : (step A cfg (run A cfg (setBound s bounds) (List.map Eval.op o.evals)) (Op.setTransVar o.x)).1 = s2 at *
   cases hn : fx.newtonRm
   · simp only [Bool.false_eq_true, if_false]
-    obtain ⟨r, hr, hmch⟩ := finish_matches A cfg false s s2 s2 o (yOf A (setBound s bounds).bnd) h1 h2 h3 h5 h6 ⟨rfl, rfl, rfl, rfl⟩
+    obtain ⟨r, hr, hmch⟩ := finish_matches A cfg false s s2 s2 o (yOf A (setBound s bounds).bnd) h1 h2 h3 h5 h6 ⟨rfl, rfl, rfl, rfl⟩ bd
     exact ⟨r, hr, hmch, h4⟩
   · simp only [if_true]
     have ht : (step A cfg s2 .removeBound).1.skel = s2.skel ∧ (step A cfg s2 .removeBound).1.heap = s2.heap ∧
         (step A cfg s2 .removeBound).1.mask = s2.mask ∧ (step A cfg s2 .removeBound).1.cplx = s2.cplx := ⟨rfl, rfl, rfl, rfl⟩
-    obtain ⟨r, hr, hmch⟩ := finish_matches A cfg false s s2 _ o (yOf A (setBound s bounds).bnd) h1 h2 h3 h5 h6 ht
+    obtain ⟨r, hr, hmch⟩ := finish_matches A cfg false s s2 _ o (yOf A (setBound s bounds).bnd) h1 h2 h3 h5 h6 ht bd
     exact ⟨r, hr, hmch, rfl⟩
 
 /-! ## iminuit (`fit_minuit_v2` through `fit_scipy(method="iminuit")`) -/
@@ -145,9 +151,9 @@ theorem result_matches_state_newton (A : Arith V) (cfg : Cfg) (fx : Fix) (stdc :
 (`dict(zip(var_names, m.values))`), bindings and registered bounds are untouched, parameters without a free name keep
 their value. -/
 theorem minuit_partial (A : Arith V) (cfg : Cfg) (fx : Fix) (stdc : Bool) (s : State V)
-    (bounds : Dict (Option V × Option V)) (o : Oracle V) (hi : Inv s) (hm : s.mask = []) :
-    let s' := (fit A cfg fx .minuit stdc s bounds o).1
-    (fit A cfg fx .minuit stdc s bounds o).2.result =
+    (bounds : Dict (Option V × Option V)) (bd : List Name) (o : Oracle V) (hi : Inv s) (hm : s.mask = []) :
+    let s' := (fitCore A cfg fx .minuit stdc s bounds bd o).1
+    (fitCore A cfg fx .minuit stdc s bounds bd o).2.result =
       some ⟨s.trainable.zip o.x, o.fval, s.trainable.length, o.success⟩ ∧
     s'.vars = s.vars ∧ s'.trainable = s.trainable ∧ s'.same = s.same ∧ s'.bnd = s.bnd ∧
     (∀ a b, cellOf s a = cellOf s b → readN s' a = readN s' b) ∧
@@ -156,15 +162,15 @@ theorem minuit_partial (A : Arith V) (cfg : Cfg) (fx : Fix) (stdc : Bool) (s : S
   obtain ⟨h1, h2, h3, h4, h5⟩ := afterEvals_plain A cfg s o.evals
   obtain ⟨g1, g2, g3, g4, g5, g6⟩ := rawWrite_facts A cfg s o.evals o.x hi hm
   have key : s'.skel = s.skel ∧ s'.bnd = s.bnd ∧ ∀ c, FixedCell s c → HF c s s' := by
-    show (fit A cfg fx .minuit stdc s bounds o).1.skel = s.skel ∧ (fit A cfg fx .minuit stdc s bounds o).1.bnd = s.bnd ∧
-      ∀ c, FixedCell s c → HF c s (fit A cfg fx .minuit stdc s bounds o).1
-    simp only [fit, afterEvals, evalOps]
+    show (fitCore A cfg fx .minuit stdc s bounds bd o).1.skel = s.skel ∧ (fitCore A cfg fx .minuit stdc s bounds bd o).1.bnd = s.bnd ∧
+      ∀ c, FixedCell s c → HF c s (fitCore A cfg fx .minuit stdc s bounds bd o).1
+    simp only [fitCore, afterEvals, evalOps]
     cases fx.minuitSet
     · exact ⟨h1, h2, h5⟩
     · exact ⟨g1, g4, g5⟩
   obtain ⟨e1, e2, e3, _⟩ := (skel_eq_iff _ _).1 key.1
   refine ⟨?_, e1, e2, e3, key.2.1, ?_, ?_⟩
-  · simp only [fit, Outcome.result]
+  · simp only [fitCore, Outcome.result]
   · intro a b hab
     apply read_eq_of_cell_eq
     rw [cellOf_of_skel key.1, cellOf_of_skel key.1]; exact hab
@@ -174,45 +180,45 @@ theorem minuit_partial (A : Arith V) (cfg : Cfg) (fx : Fix) (stdc : Bool) (s : S
 /-- **`result_matches_state`, iminuit after `fix_fit_minuit_model_state.diff`**: every listed (free) parameter is held by
 the model with exactly the listed value `m.values[i]`. -/
 theorem result_matches_state_minuit (A : Arith V) (cfg : Cfg) (fx : Fix) (stdc : Bool) (s : State V)
-    (bounds : Dict (Option V × Option V)) (o : Oracle V) (hi : Inv s) (hm : s.mask = []) (hf : fx.minuitSet = true) :
-    ∃ r, (fit A cfg fx .minuit stdc s bounds o).2 = .ok r ∧ r.params = s.trainable.zip o.x ∧
-      ∀ kv ∈ r.params, readN (fit A cfg fx .minuit stdc s bounds o).1 kv.1 = some kv.2 := by
+    (bounds : Dict (Option V × Option V)) (bd : List Name) (o : Oracle V) (hi : Inv s) (hm : s.mask = []) (hf : fx.minuitSet = true) :
+    ∃ r, (fitCore A cfg fx .minuit stdc s bounds bd o).2 = .ok r ∧ r.params = s.trainable.zip o.x ∧
+      ∀ kv ∈ r.params, readN (fitCore A cfg fx .minuit stdc s bounds bd o).1 kv.1 = some kv.2 := by
   obtain ⟨g1, g2, g3, g4, g5, g6⟩ := rawWrite_facts A cfg s o.evals o.x hi hm
   refine ⟨⟨s.trainable.zip o.x, o.fval, s.trainable.length, o.success⟩, ?_, rfl, ?_⟩
-  · simp only [fit]
+  · simp only [fitCore]
   · intro kv hkv
-    simp only [fit, afterEvals, evalOps, hf, if_true]
+    simp only [fitCore, afterEvals, evalOps, hf, if_true]
     exact g6 kv hkv
 
 /-- **Unchanged tree, iminuit: the statement is false** — the model keeps the LAST EVALUATED point, not `m.values`.
 Witness: one free parameter `a`, the minimiser evaluates at 7 and answers 5: the result lists `a = 5`, the model holds 7. -/
 theorem minuit_unfixed_state_is_last_evaluation :
-    let s := run arithN ⟨true, true⟩ (State.empty 0 true) [.addReal "a" 1 true true, .addReal "b" 2 true false]
+    let s := run arithN ⟨true, true, false, false⟩ (State.empty 0 true) [.addReal "a" 1 true true, .addReal "b" 2 true false]
     let o : Oracle Nat := ⟨[.raw [7]], false, [5], 0, true, false⟩
-    let r := fit arithN ⟨true, true⟩ ⟨false, false, false, false, false⟩ .minuit true s [] o
+    let r := fit arithN ⟨true, true, false, false⟩ ⟨false, false, false, false, false, false⟩ .minuit true s [] o
     (r.2.result.map (·.params)) = some [("a", 5)] ∧ readN r.1 "a" = some 7 := by
   decide +kernel
 
 /-- the same input after the patch: the model holds 5 -/
 theorem minuit_fixed_state_is_answer :
-    let s := run arithN ⟨true, true⟩ (State.empty 0 true) [.addReal "a" 1 true true, .addReal "b" 2 true false]
+    let s := run arithN ⟨true, true, false, false⟩ (State.empty 0 true) [.addReal "a" 1 true true, .addReal "b" 2 true false]
     let o : Oracle Nat := ⟨[.raw [7]], false, [5], 0, true, false⟩
-    let r := fit arithN ⟨true, true⟩ ⟨false, false, false, true, false⟩ .minuit true s [] o
+    let r := fit arithN ⟨true, true, false, false⟩ ⟨false, false, false, true, false, false⟩ .minuit true s [] o
     (r.2.result.map (·.params)) = some [("a", 5)] ∧ readN r.1 "a" = some 5 := by
   decide +kernel
 
 /-! ## unknown method -/
 
 theorem unknown_method_raises (A : Arith V) (cfg : Cfg) (fx : Fix) (stdc : Bool) (s : State V)
-    (bounds : Dict (Option V × Option V)) (o : Oracle V) :
-    (fit A cfg fx .unknown stdc s bounds o).1 = s ∧ (fit A cfg fx .unknown stdc s bounds o).2.exc = some "Exception" :=
+    (bounds : Dict (Option V × Option V)) (bd : List Name) (o : Oracle V) :
+    (fitCore A cfg fx .unknown stdc s bounds bd o).1 = s ∧ (fitCore A cfg fx .unknown stdc s bounds bd o).2.exc = some "Exception" :=
   ⟨rfl, rfl⟩
 
 /-! ## closed witnesses for the unchanged tree -/
 
 /-- a small reachable state: `a` free and bounded by the fit, `b` fixed, `c` free and tied to `d` -/
 def demo : State Nat :=
-  run arithN ⟨true, true⟩ (State.empty 0 true)
+  run arithN ⟨true, true, false, false⟩ (State.empty 0 true)
     [.addReal "a" 1 true true, .addReal "b" 2 true false, .addReal "c" 3 true true, .addReal "d" 3 true true,
      .setSame ["c", "d"] false]
 
@@ -222,7 +228,7 @@ def demoBounds : Dict (Option Nat × Option Nat) := [("a", (some 0, some 500))]
 `y2x` while the bound is registered) no longer returns the stored value. -/
 theorem newton_unfixed_leaves_bounds :
     let o : Oracle Nat := ⟨[.trans [9, 9]], false, [5, 6], 0, true, false⟩
-    let r := fit arithN ⟨true, true⟩ ⟨false, false, false, false, false⟩ .newton true demo demoBounds o
+    let r := fit arithN ⟨true, true, false, false⟩ ⟨false, false, false, false, false, false⟩ .newton true demo demoBounds o
     dkeys r.1.bnd = ["a"] ∧ readN r.1 "a" = some 105 ∧ getV arithN r.1 "a" true = some 5 ∧
       readN r.1 "c" = some 6 ∧ readN r.1 "d" = some 6 ∧ readN r.1 "b" = some 2 := by
   decide +kernel
@@ -230,21 +236,21 @@ theorem newton_unfixed_leaves_bounds :
 /-- the same input after `fix_fit_newton_remove_bound.diff` -/
 theorem newton_fixed_clears_bounds :
     let o : Oracle Nat := ⟨[.trans [9, 9]], false, [5, 6], 0, true, false⟩
-    let r := fit arithN ⟨true, true⟩ ⟨false, true, false, false, false⟩ .newton true demo demoBounds o
+    let r := fit arithN ⟨true, true, false, false⟩ ⟨false, true, false, false, false, false⟩ .newton true demo demoBounds o
     r.1.bnd = [] ∧ readN r.1 "a" = some 105 ∧ getV arithN r.1 "a" true = some 105 := by
   decide +kernel
 
 /-- **Unchanged tree, CG: raises with the bounds registered** (concrete instance of `quasi_without_hess_inv_raises`) -/
 theorem cg_unfixed_raises_with_bounds :
     let o : Oracle Nat := ⟨[], false, [5, 6], 0, true, false⟩
-    let r := fit arithN ⟨true, true⟩ ⟨false, false, false, false, false⟩ .quasi true demo demoBounds o
+    let r := fit arithN ⟨true, true, false, false⟩ ⟨false, false, false, false, false, false⟩ .quasi true demo demoBounds o
     r.2.exc = some "AttributeError" ∧ dkeys r.1.bnd = ["a"] := by
   decide +kernel
 
 /-- **Unchanged tree, `LargeNumberError`: the result is returned with the bounds still registered** -/
 theorem abort_unfixed_leaves_bounds :
     let o : Oracle Nat := ⟨[.trans [9, 9]], true, [], 0, false, true⟩
-    let r := fit arithN ⟨true, true⟩ ⟨false, false, false, false, false⟩ .quasi true demo demoBounds o
+    let r := fit arithN ⟨true, true, false, false⟩ ⟨false, false, false, false, false, false⟩ .quasi true demo demoBounds o
     (r.2.result.map (·.success)) = some false ∧ dkeys r.1.bnd = ["a"] := by
   decide +kernel
 
@@ -254,14 +260,14 @@ theorem abort_unfixed_leaves_bounds :
 false for the code: `fit_scipy` calls `standard_complex` after `remove_bound`, which rewrites polar components whether
 they are fixed or were bounded.  The two theorems below are the witnesses (toy integer arithmetic `arithZ`). -/
 def polarDemo : State Int :=
-  run arithZ ⟨true, true⟩ (State.empty 0 true)
+  run arithZ ⟨true, true, false, false⟩ (State.empty 0 true)
     [.addReal "a" 1 true true, .addComplex "z" (some true) true 1 4, .addComplex "w" (some true) false (-1) 4]
 
 /-- **Finding: a FIXED polar parameter is rewritten by the fit** — `w = (-1, 4)` fixed; after a BFGS-branch fit the
 model holds `w = (1, 1)` (|r|, phase + pi wrapped): same complex number, different stored "fixed" values. -/
 theorem standard_complex_moves_fixed_polar :
     let o : Oracle Int := ⟨[], false, [5, 2, 1], 0, true, true⟩
-    let r := fit arithZ ⟨true, true⟩ ⟨false, false, false, false, false⟩ .quasi true polarDemo [] o
+    let r := fit arithZ ⟨true, true, false, false⟩ ⟨false, false, false, false, false, false⟩ .quasi true polarDemo [] o
     readN polarDemo "wr" = some (-1) ∧ readN polarDemo "wi" = some 4 ∧ readN r.1 "wr" = some 1 ∧ readN r.1 "wi" = some 1 ∧
       FixedCell polarDemo 3 ∧ cellOf polarDemo "wr" = some 3 := by
   refine ⟨by decide +kernel, by decide +kernel, by decide +kernel, by decide +kernel, ?_, by decide +kernel⟩
@@ -273,7 +279,7 @@ theorem standard_complex_moves_fixed_polar :
 theorem standard_complex_ignores_removed_bounds :
     let o : Oracle Int := ⟨[], false, [5, 2, 1], 0, true, true⟩
     let b : Dict (Option Int × Option Int) := [("zi", (some 100, some 200))]
-    let r := fit arithZ ⟨true, true⟩ ⟨false, false, false, false, false⟩ .quasi true polarDemo b o
+    let r := fit arithZ ⟨true, true, false, false⟩ ⟨false, false, false, false, false, false⟩ .quasi true polarDemo b o
     polarDemo.trainable = ["a", "zr", "zi"] ∧ yOf arithZ (setBound polarDemo b).bnd "zi" 1 = 101 ∧
       readN r.1 "zi" = some 95 ∧ r.1.bnd = [] := by
   decide +kernel
@@ -282,7 +288,7 @@ theorem standard_complex_ignores_removed_bounds :
 theorem without_standard_complex_bounded_phase_kept :
     let o : Oracle Int := ⟨[], false, [5, 2, 1], 0, true, true⟩
     let b : Dict (Option Int × Option Int) := [("zi", (some 100, some 200))]
-    let r := fit arithZ ⟨true, true⟩ ⟨false, false, false, false, false⟩ .quasi false polarDemo b o
+    let r := fit arithZ ⟨true, true, false, false⟩ ⟨false, false, false, false, false, false⟩ .quasi false polarDemo b o
     readN r.1 "zi" = some 101 ∧ readN r.1 "wr" = some (-1) := by
   decide +kernel
 
